@@ -80,6 +80,44 @@ def gen_fan(rnd, *, max_items=8, allow_fail=True, allow_exhaust=True, hitl=False
     return spec
 
 
+def gen_wait2(rnd):
+    """wait family whose waiting step goes on after its first wait: it catches the TimeoutError and asks a fallback question (a
+    second wait_for_event in the same invocation), or lets the TimeoutError escape into a retry policy.  wait_for_event is
+    replay-based, so every later execution of the invocation goes through the first wait again and must meet the SAME outcome."""
+    spec = gen_wait(rnd, timeouts=True, log_step=False, targeted_ext=False)
+    ask = next(s_ for s_ in spec["steps"] if s_["name"] == "ask")
+    w1 = next(a for a in ask["acts"] if a["k"] == "wait")
+    if "timeout" not in w1:
+        w1["timeout"] = rnd.choice([0.5, 1, 2])
+    if w1.get("wid") is None:
+        w1["wid"] = "w-{uid}"
+    tmo = w1["timeout"]
+    # the first answer is late (after the timeout), missing, or on time
+    style = rnd.choice(["late", "late", "none", "once"])
+    rep = {"late": [{"delay": tmo + rnd.choice([0.25, 0.5, 1.5]), "type": "Answer", "pay": {"key": "{v}"}}], "none": [],
+           "once": [{"delay": rnd.choice([0, tmo / 2]), "type": "Answer", "pay": {"key": "{v}"}}]}[style]
+    for rp_ in rep:
+        for kk, vv in w1["req"].items():
+            if kk != "key":
+                rp_["pay"][kk] = vv
+    spec["responders"] = [{"on": "Ask", "replies": rep}] if rep else []
+    shape = rnd.choice(["fallback", "fallback", "retry"])
+    if shape == "fallback":
+        w2 = {"k": "wait", "type": "Answer2", "req": {"key": "{v}"}, "wid": "w2-{uid}", "ask": "Ask2"}
+        if rnd.random() < 0.3:
+            w2["timeout"] = rnd.choice([3, 5])
+        i = ask["acts"].index(w1)
+        ask["acts"].insert(i + 1, w2)
+        spec["responders"].append({"on": "Ask2", "replies": [{"delay": rnd.choice([0.5, 1, 2]), "type": "Answer2", "pay": {"key": "{v}"}}]})
+    else:
+        w1["on_timeout"] = "raise"
+        ask["retry"] = {"retry": None, "wait": {"k": "fixed", "w": rnd.choice([0, 0.5])}, "stop": {"k": "attempt", "n": rnd.randint(2, 3)}}
+        spec["timeout"] = 60.0
+    spec["family"] = "wait2"
+    spec["meta"].update({"style": style, "timeout": tmo, "replayed_waits": True, "shape": shape, "may_wait_forever": False})
+    return spec
+
+
 def gen_wait(rnd, *, timeouts=True, log_step=None, targeted_ext=True):
     """start -> n x EvD -> ask (wait_for_event Answer, requirement key==v) -> EvC -> join -> StopEvent.
     Responders answer the published Ask events: on time, late, duplicated, with wrong key / wrong type."""
